@@ -26,7 +26,7 @@ NOT_CARRIED = ["len(str(kwargs)) is an uninterpreted integer (the rendered size 
                "the output formatters other than get_response_of_types"]
 
 
-def bounded(check):
+def _bounded0(check):
     """bounded stand-in / native witness search: real rules of every kind through the real SingleEvaluator and JsonFormat"""
     import json, os, subprocess
     k = 2 if check.tier == "quick" else 3
@@ -50,3 +50,8 @@ def bounded(check):
                   open(path, "w"), indent=1)
         out["replay"] = path
     return [out]
+
+
+def bounded(check):
+    from props._xcheck import xcheck
+    return list(_bounded0(check)) + [xcheck(check, ["dr", "responses"], "responses")]
